@@ -17,7 +17,7 @@ let z_of_int (i : int) : z =
   if i < 0 then z_of_hex (Printf.sprintf "-%x" (-i)) else z_of_hex (Printf.sprintf "%x" i)
 let int_of_z (v : z) : int = int_of_shex (hex_of_z v)
 let fault_str = function
-  | OOB_read -> "ASAN" | FP_invalid -> "FPINV" | Int_overflow -> "OVF" | Nonterm -> "TIMEOUT"
+  | Tm_OOB_read -> "ASAN" | Tm_FP_invalid -> "FPINV" | Tm_Int_overflow -> "OVF" | Tm_Nonterm -> "TIMEOUT"
 let () = register "tmap" (fun ic ->
   let mode = if Array.length Sys.argv > 2 then Sys.argv.(2) else "cur" in
   let old = (mode = "old-asan" || mode = "old-plain") in
